@@ -574,6 +574,13 @@ func (db *MultiBucketBackend) deleteObjectLocked(bucketName, objectName string) 
 
 	fullPath := path.Join(bucketName, objectName)
 
+	// A directory is not an object, it only exists because other keys have this
+	// key as a path prefix. afero.Fs implementations are not required to refuse
+	// to remove a directory that still has entries, so don't ask them to:
+	if stat, err := db.bucketFs.Stat(filepath.FromSlash(fullPath)); err == nil && stat.IsDir() {
+		return nil
+	}
+
 	// S3 does not report an error when attemping to delete a key that does not exist, so
 	// we need to skip IsNotExist errors.
 	if err := db.bucketFs.Remove(filepath.FromSlash(fullPath)); err != nil && !os.IsNotExist(err) {
